@@ -26,7 +26,7 @@ Lemma cmd_visible s b k u c ch F G cmd args (H : msg -> bot -> bot) :
   existsb (seq_eqb cmd) gen.T10.NICKSETTERS = false -> seq_eqb cmd str_NICK = false ->
   seq_eqb (upper cmd) str_NICK = false -> (seq_eqb (upper cmd) str_JOIN = true -> args <> []) ->
   (forall m b, m_command m = cmd -> addMsg m b = H m (pre_n2h m b)) ->
-  (forall b1, b_chans b1 = b_chans b -> H (Msg (hostmask u) cmd args) b1 = chan_upd c G b1) ->
+  (forall b1, b_chans b1 = b_chans b -> b_nick b1 = b_nick b -> H (Msg (hostmask u) cmd args) b1 = chan_upd c G b1) ->
   is_member (s_me s) (F ch) = true ->
   (forall x, is_member x (F ch) = true -> is_member x ch = true \/ feq x k = true) ->
   (forall f v, assoc f (sc_modes (F ch)) = Some v -> letter_ok f v = true) ->
@@ -36,7 +36,7 @@ Proof.
   intros I Hk Hc Hme C1 C2 C3 C4 Hd HH HmeF Hnew Hmodes Hrel.
   destruct (wf_users s (inv_wf s b I) k u Hk) as [_ Hgu].
   destruct (feed_user u cmd args b H Hgu (Inv_valid_nick s b I) C1 C2 C3 C4 Hd) as [b' [Hcore Hfeed]].
-  rewrite Hfeed, HH by (cbn; apply Hcore).
+  rewrite Hfeed. rewrite (HH (n2h_set (su_nick u) (hostmask u) b') (proj1 (proj2 Hcore)) (proj1 Hcore)).
   destruct (Inv_actor s b' k u (Inv_core s b b' Hcore I) Hk) as [I1 Hn2h].
   apply (upd_visible s c ch F Hc _ G k u I1 Hme Hk Hn2h HmeF Hnew Hmodes Hrel).
 Qed.
@@ -139,7 +139,7 @@ Proof.
                  str_JOIN [c] st_doJoin); try assumption; try reflexivity.
         -- intros; discriminate.
         -- exact addMsg_JOIN.
-        -- intros b1 Hb1. unfold st_doJoin. cbn [m_args].
+        -- intros b1 Hb1 _. unfold st_doJoin. cbn [m_args].
            apply andb_true_iff in Vc as [Vc _].
            rewrite (split_char_nomem COMMA c (isChannel_nocomma c Vc)). cbn [fold_left].
            assert (Hh : idict_has c (b_chans b1) = true).
@@ -394,68 +394,4 @@ Proof.
   - cbn [set_chans_s s_chans]. rewrite idict_get_set, feq_refl. exact Hgoal.
 Qed.
 
-(* ---- the actions whose step case is proved; the bot's own JOIN only into a channel nobody is on ---- *)
-Definition proved_step (s : srv) (a : action) : bool :=
-  match a with
-  | AConnect _ _ _ => true
-  | ATopic _ _ _ => true
-  | AJoin n [c] => if feq n (s_me s) then dead_or_absent s c else true
-  | _ => false
-  end.
-Lemma step_proved s b a : Inv s b -> proved_step s a = true ->
-  let '(s', ms) := step nick0 true uh s a in Inv s' (fa b ms).
-Proof.
-  intros I Hp. destruct a; try discriminate.
-  - apply step_connect. exact I.
-  - destruct chans as [|c [|c2 r]]; try discriminate. cbn [proved_step] in Hp.
-    destruct (feq n (s_me s)) eqn:E.
-    + apply step_join_self_fresh; assumption.
-    + apply step_join_other; assumption.
-  - apply step_topic. exact I.
-Qed.
-Fixpoint run_proved (s : srv) (acts : list action) : bool :=
-  match acts with
-  | [] => true
-  | a :: r => proved_step s a && run_proved (fst (step nick0 true uh s a)) r
-  end.
-Lemma trace_inv : forall acts s b, Inv s b -> run_proved s acts = true ->
-  all_agree nick0 prefix0 true uh s b acts = true.
-Proof.
-  induction acts as [|a r IH]; intros s b I Hr; [reflexivity|].
-  cbn [run_proved] in Hr. apply andb_true_iff in Hr as [Hp Hr].
-  cbn [all_agree]. unfold sim_step. cbn [fst snd].
-  pose proof (step_proved s b a I Hp) as Hs.
-  destruct (step nick0 true uh s a) as [s' ms]. cbn [fst] in Hr.
-  rewrite (Agree.Inv_agree s' _ Hs). cbn [andb]. apply IH; assumption.
-Qed.
 End Steps.
-
-Lemma Inv_start nick0 prefix0 u h : valid_nick nick0 = true -> valid_uh u = true -> valid_uh h = true ->
-  Inv (srv0 nick0 u h) (reset nick0 prefix0).
-Proof.
-  intros Hn Hu Hh. constructor.
-  - constructor.
-    + exact Hn.
-    + exists (SUser nick0 u h). unfold srv0. cbn [s_me s_users idict_get]. rewrite feq_refl. split; reflexivity.
-    + intros n ux Hg. unfold srv0 in Hg. cbn [s_me s_users idict_get] in Hg. destruct (feq n nick0) eqn:E; [|discriminate]. inversion Hg; subst ux. cbn.
-      split; [exact E|]. repeat split; assumption.
-    + intros c ch x Hg. discriminate.
-    + intros c ch f v Hg. discriminate.
-  - reflexivity.
-  - intro c. reflexivity.
-  - intros c ch bc Hg. discriminate.
-  - intros n ux c Hg Hv. discriminate.
-Qed.
-
-(* non-vacuity of the trace theorem: an in-domain history in which the bot creates two channels, other users join
-   them and set topics -- every step is a proved step, and (by the theorem, and by computation) the bot agrees *)
-Definition trace_example : list action :=
-  [AConnect n_Foo u_ h_; AConnect n_bar u_ h_; AJoin n_test [c_a]; AJoin n_FOO [c_A]; ATopic n_foo c_a [104; 105];
-   AJoin n_TEST [c_b]; AJoin n_bar [c_B]; AJoin n_BAR [c_a]; ATopic n_test c_B [121; 111]; AJoin n_bar [[35; 122]];
-   ATopic n_bar c_A []].
-Example trace_example_ok :
-  run_proved n_test true start trace_example = true
-  /\ dom trace_example = true
-  /\ (let '(s, b) := final n_test p_test true true start bot_start trace_example in
-      length (view_chans s) = 2%nat /\ length (view_hosts s) = 3%nat).
-Proof. vm_compute. repeat split; reflexivity. Qed.
